@@ -1,5 +1,6 @@
 import Driver.NameMatch
 import Driver.Trace
+import Driver.Misc
 open Driver
 
 partial def loop (h : IO.FS.Stream) (out : IO.FS.Stream) (f : String → String) : IO Unit := do
@@ -11,7 +12,9 @@ partial def loop (h : IO.FS.Stream) (out : IO.FS.Stream) (f : String → String)
 
 def commands : List (String × (String → String)) := [
   ("namematch", namematch),
-  ("trace", trace)
+  ("trace", trace),
+  ("legal", legal),
+  ("nest", nest)
 ]
 
 def main (args : List String) : IO UInt32 := do
